@@ -264,7 +264,7 @@ def check_item(it, place, labels, out, compress, errs, idx):
         dep = 'imm' in it['f'] and depends_on_label(it['f']['imm'])
         if mn != want_mn or set(got) != set(want_f) or any(not _imm_equal(mn, got[r], want_f[r]) for r in got):
             # the one non-literal equivalence a compressor may use: same effect on the ISS from the value alphabet
-            if not dep and kind == '16' and equivalent(usz, mn, got, 4, want_mn, want_f):
+            if kind == '16' and mn != want_mn and equivalent(usz, mn, got, 4, want_mn, want_f):
                 return
             cat = 'xfer' if is_transfer(it) else ('labelval' if dep else 'inst')
             errs.append((cat, idx, '%s at %#x decodes to %s %r, expected %s %r' % (it['text'], cur, mn, got, want_mn, want_f)))
